@@ -5,6 +5,7 @@ package main
 // non-negative operands, which is the only way contracts use them).
 
 import (
+	"fmt"
 	"go/constant"
 	"go/types"
 	"math/big"
@@ -19,6 +20,9 @@ type CV struct {
 	Off, Len *Term
 	Elem     types.Type
 }
+
+// FXV: a view passed where a pure function expects a fixed-size array.
+type FXV struct{ V CV }
 
 type CEnv struct {
 	c      *FCtx
@@ -381,6 +385,16 @@ func (env *CEnv) equal(a, b Val, e *CExpr) *Term {
 			return And(cs...)
 		}
 	}
+	if pa, ok := a.(PV); ok {
+		if pb, ok := b.(PV); ok {
+			if pa.Cell == pb.Cell && samePath(pa.Path, pb.Path) {
+				return Eq(pa.IsNil, pb.IsNil)
+			}
+			if pa.Cell != pb.Cell {
+				return And(pa.IsNil, pb.IsNil)
+			}
+		}
+	}
 	if la, ok := a.(LV); ok && la.Str {
 		if lb, ok := b.(LV); ok && lb.Str {
 			return env.viewEq(env.asView(la, e), env.asView(lb, e))
@@ -544,6 +558,61 @@ func (env *CEnv) call(e *CExpr) Val {
 			return sv
 		}
 		fail("%s: abstract() of %T", e.Pos, v)
+	case "unhex":
+		// unhex(s): the byte string denoted by the hex digits of the string/view s
+		v := env.asView(env.eval(e.Args[0]), e)
+		return CV{App("unhex", SArr(SInt), v.Arr, v.Off, v.Len), Num(0), Div(v.Len, Num(2)), types.Typ[types.Uint8]}
+	case "fixed":
+		// fixed(view): the view as a fixed-size array argument of a pure function
+		v := env.asView(env.eval(e.Args[0]), e)
+		return FXV{v}
+	case "purefn":
+		// purefn("pkg.Func", "r0"|"w1", args...): the uninterpreted function that a `pure` contract attaches to
+		// result/assigned-region of that function, applied to these arguments (same flattening as at call sites)
+		if len(e.Args) < 2 || e.Args[0].Kind != "str" || e.Args[1].Kind != "str" {
+			fail("%s: purefn(\"pkg.Func\", \"r0\", args...)", e.Pos)
+		}
+		key, which := e.Args[0].Str, e.Args[1].Str
+		con := c.eng.cs.Funcs[key]
+		if con == nil || !con.Pure {
+			fail("%s: %s has no `pure` contract", e.Pos, key)
+		}
+		fi := c.eng.funcs[key]
+		if fi == nil {
+			fail("%s: %s is not a repository function", e.Pos, key)
+		}
+		pn := paramNames(fi, con, fi.Obj)
+		if len(pn) != len(e.Args)-2 {
+			fail("%s: purefn %s needs %d arguments", e.Pos, key, len(pn))
+		}
+		var vals []Val
+		for _, a := range e.Args[2:] {
+			vals = append(vals, env.eval(a))
+		}
+		in := c.pureInputs(env.state(), con, pn, vals)
+		sig := fi.Obj.Type().(*types.Signature)
+		srt := SInt
+		if strings.HasPrefix(which, "r") {
+			var ri int
+			fmt.Sscanf(which[1:], "%d", &ri)
+			rt := sig.Results().At(ri).Type()
+			switch {
+			case isBool(rt) || isErrorType(rt):
+				srt = SBool
+			default:
+				srt = c.sortOf(rt)
+			}
+		} else {
+			srt = SArr(SInt)
+		}
+		t := App(fmt.Sprintf("pure$%s$%s", key, which), srt, in...)
+		if srt == SBool {
+			return boolSV(t)
+		}
+		if srt == SInt {
+			return intSV(t)
+		}
+		return SV{t, nil}
 	case "maphas", "mapval":
 		v := env.eval(e.Args[0])
 		fv, ok := v.(FV)
